@@ -106,7 +106,10 @@ class SyncTasks(Tasks):
 
         def schedule_save():
             """Save sensors and schedule a new save."""
-            save_sensors()
+            try:
+                save_sensors()
+            except Exception:  # pylint: disable=broad-except
+                _LOGGER.exception("Failed to save sensors, will try again")
             scheduler = threading.Timer(10.0, schedule_save)
             scheduler.start()
             self._cancel_save = scheduler.cancel
@@ -190,7 +193,10 @@ class AsyncTasks(Tasks):
             loop = asyncio.get_running_loop()
             while True:
                 try:
-                    await loop.run_in_executor(None, save_sensors)
+                    try:
+                        await loop.run_in_executor(None, save_sensors)
+                    except Exception:  # pylint: disable=broad-except
+                        _LOGGER.exception("Failed to save sensors, will try again")
                     await asyncio.sleep(10.0)
                 except asyncio.CancelledError:
                     break
